@@ -2,6 +2,7 @@ import RbV.Lemmas.C15b
 import RbV.Lemmas.C15c
 import RbV.Lemmas.C15Gen
 import RbV.Thm.GenSrcProbs
+import RbV.Thm.GenSrcFastExp
 /-!
 # C15 — log-space probability arithmetic agrees with linear-space arithmetic (real-number theorems, PARTIAL)
 
@@ -426,5 +427,27 @@ example : Gen.SrcProbs.checked (xrOps exp) XR.nan ≠ Except.ok XR.nan := by
 example : Gen.SrcProbs.checked (xrOps exp) (XR.fin 0.3) = Except.ok (XR.fin 0.3) :=
   (prob_checked_source_iff exp _ _).mpr ⟨rfl, 0.3, rfl, by norm_num, by norm_num⟩
 example : lin (some (-1) : LP) ≤ lin (some 0) := by simp [lin]
+
+/-- the translated body of `FastExp::fastexp` (`RbV/Gen/SrcFastExp.lean`): for `MIN_VAL < x ≤ 0` it returns exactly
+`2^k · P(y)`, `k = ⌈ONEBYLOG2·x⌉`, `y = ONEBYLOG2·x − k`, `P` the polynomial over the extracted coefficients — the `i64`
+arithmetic does not overflow, the shifted exponent stays in its field and the assembled bit pattern decodes (IEEE-754
+binary64) to `2^k`.  (`ONEBYLOG2` is the 10-digit literal, not `1/ln 2`: the distance to `fastexpModel` is part of the
+measured `δ`.) -/
+theorem fastexp_source_eq_bit_trick (E : ℝ → ℝ) (x : ℝ) (hlo : decR Gen.Scales.minVal < x) (hhi : x ≤ 0) :
+    Gen.SrcFastExp.fastexp (xrOps E) (XR.fin x) =
+      Rs.Res.ok (XR.fin ((2 : ℝ) ^ ⌈decR Gen.Scales.oneByLog2 * x⌉ *
+        fastexpPolyGen (decR Gen.Scales.oneByLog2 * x - ⌈decR Gen.Scales.oneByLog2 * x⌉))) := by
+  obtain ⟨h1, h2, _, _⟩ := fastexp_exponent_field_in_range x hlo hhi
+  have ho : Gen.Scales.offsetF64 = 1023 := by decide
+  rw [ho] at h1 h2
+  exact GenSrcFastExp.fastexp_eq_model E x hlo hhi h1 h2 (by rw [decR_eq]; unfold Gen.Scales.oneByLog2; norm_num)
+
+/-- at and below `MIN_VAL` the text is the exact `exp`; `fastexp(−∞) = 0` (the value `xrOps` gives `fastexp` at `−∞`) -/
+theorem fastexp_source_below_cutoff (E : ℝ → ℝ) (x : ℝ) (h : x ≤ decR Gen.Scales.minVal) :
+    Gen.SrcFastExp.fastexp (xrOps E) (XR.fin x) = Rs.Res.ok (XR.fin (exp x)) ∧
+    Gen.SrcFastExp.fastexp (xrOps E) XR.ninf = Rs.Res.ok (XR.fin 0) :=
+  ⟨GenSrcFastExp.fastexp_below E x h, GenSrcFastExp.fastexp_ninf E⟩
+
+example : ∃ x : ℝ, decR Gen.Scales.minVal < x ∧ x ≤ 0 := ⟨0, by rw [decR_eq]; unfold Gen.Scales.minVal; norm_num, le_rfl⟩
 
 end RbV.Thm.C15
